@@ -343,6 +343,8 @@ def run(ctx: core.Check):
             ctx.tie_ok()
         else:
             ctx.tie_bad("text", {"text": t, "kw": kw}, list(impl), rep)
+    # process-wide state: the interpretation must not depend on the public decimal context (precision, rounding)
+    _decimal_context_stream(ctx, nums)
     # relations between results: nesting and commutation
     for n in nums:
         base = wire(n)
@@ -410,6 +412,46 @@ def _pairs(ctx, nums, results):
                     ctx.fail({"call": "hedge_interpret", "kind": "hedge", "check": "pow10", "kw": kw, "below_one": abs(x) < 1 or abs(x0) < 1},
                              {"text": t0, "other": t},
                              f"{t0!r} -> {i0[1:]} but {t!r} -> {i[1:]}: not the same interval multiplied by {float(ratio)!r}")
+
+
+def _decimal_context_stream(ctx, nums):
+    """the same calls under a lowered decimal.getcontext().prec / another rounding mode (set globally and through
+    decimal.localcontext) give the results of the default context (or raise) — never another value; the context is
+    left as it was found."""
+    import decimal
+    rng = ctx.rng
+    pool = [n for n in nums if len(n[1] + n[2]) >= 4][: ctx.scale(90, 1500)] + list(FIXED[:12]) + list(ZEROS[:6])
+    settings = [(3, decimal.ROUND_HALF_EVEN), (6, decimal.ROUND_DOWN), (2, decimal.ROUND_UP), (1, decimal.ROUND_CEILING), (5, decimal.ROUND_FLOOR)]
+    for n in pool:
+        t = render(n)
+        kws = rng.sample(HEDGES, 3)
+        calls = [("sgnumber", impl_sg, t), ("hedge_interpret", impl_hedge, t), ("pun.I", impl_punI, t)] + \
+                [("hedge_interpret", impl_hedge, f"{kw} {t}") for kw in kws]
+        base = [fn(a) for _, fn, a in calls]
+        prec, rnd = rng.choice(settings)
+        g = decimal.getcontext()
+        saved = (g.prec, g.rounding)
+        for how in ("global", "local"):
+            try:
+                if how == "global":
+                    g.prec, g.rounding = prec, rnd
+                    got = [fn(a) for _, fn, a in calls]
+                else:
+                    with decimal.localcontext() as c:
+                        c.prec, c.rounding = prec, rnd
+                        got = [fn(a) for _, fn, a in calls]
+            finally:
+                g.prec, g.rounding = saved
+            for (name, _, a), b, r in zip(calls, base, got):
+                ctx.count(("decimal-context", how, prec, rnd, name, a), True, "decimal-context")
+                if r[0] == "err" and b[0] != "err":
+                    continue            # raising under a hostile context is acceptable, another value is not
+                if r != b and not (r[0] == b[0] == "ok" and all((x == y) or (x != x and y != y) for x, y in zip(r[1:], b[1:]))):
+                    ctx.fail({"call": name, "kind": "decimal-context", "how": how, "prec": prec, "rounding": rnd, "symptom": "value"},
+                             {"text": a, "call": name, "prec": prec, "rounding": rnd, "how": how},
+                             f"{name}({a!r}) = {list(r)} with decimal context prec={prec}, rounding={rnd} ({how}); {list(b)} with the default context")
+        if (decimal.getcontext().prec, decimal.getcontext().rounding) != saved:
+            ctx.fail({"call": "decimal", "kind": "decimal-context", "symptom": "state-leaked"}, {"text": t}, "the decimal context was changed by the call")
 
 
 def _lde(w):
